@@ -310,6 +310,27 @@ def check_property(prop, tier, a):
                 violations.append({'fingerprint': o['oid'], 'record': rec, 'reproduced': False,
                                    'what': f"{o['kind']} obligation '{o['label']}' of {o['contract']} is no longer discharged after the function changed"})
 
+    # ... and an obligation that was discharged on the committed tree and is not even generated any more, because the changed
+    # function now contains something the verifier does not accept (an unsupported construct on the path, an engine error),
+    # is reported the same way: the named obligation is no longer discharged for the code as it stands.
+    by_key = {r['key']: r for r in results}
+    for oid, v in baseline.items():
+        if v != 'proved' or oid in agg or '::' not in oid:
+            continue
+        key = oid.split('::', 1)[0]
+        r = by_key.get(key)
+        hb, hn = src_base.get(key), src_now.get(key)
+        if r is None or not (hb and hn and hb != hn) or not (r['unsupported'] or r['errors']):
+            continue
+        why = '; '.join(sorted({u['why'] for u in r['unsupported']} | {e['why'] for e in r['errors']}))[:300]
+        rec = {'property': prop, 'kind': 'obligation-not-discharged', 'contract': key, 'obligation': oid, 'function': r.get('target'),
+               'tier': 'T1', 'backend': 'pyvc / z3 ' + z3_version(), 'solver_answer': 'not generated: ' + why,
+               'baseline_verdict': 'proved', 'code_hash_baseline': hb, 'code_hash_now': hn, 'model': None,
+               'note': 'this obligation was discharged for the committed tree; the function (or a callee verified inline) has changed and the '
+                       'verifier does not accept the new code, so the obligation is not discharged. No counterexample was produced.'}
+        violations.append({'fingerprint': oid, 'record': rec, 'reproduced': False,
+                           'what': f"obligation '{oid.split('::', 1)[1]}' of {key} is no longer discharged after the function changed ({why[:120]})"})
+
     # --- native function-level T3 ------------------------------------------------------
     fn_evals = fn_distinct = 0
     fn_samples = []
